@@ -65,6 +65,10 @@ def run_case(case, ctx):
         cut = data[:k]
         r = lib(T, io.BytesIO(cut))
         n_parses += 1
+        # the documented call form T(<bytes>) must not treat a truncated buffer as anything but input to parse
+        rb = lib(T, cut)
+        if isinstance(rb, Err) != isinstance(r, Err) or (not isinstance(rb, Err) and libside.cplain(rb) != libside.cplain(r)):
+            raise Violation("bytes-call-form-differs", f"cut at {k}: T(bytes) gives {rb if isinstance(rb, Err) else libside.cplain(rb)!r}, T(stream) gives {r if isinstance(r, Err) else libside.cplain(r)!r}: {desc({'cut': k})}")
         if eof_def:
             ref2 = common.reference(case, cut)
             if ref2["status"] == "short":
